@@ -1,6 +1,7 @@
 import TeaalVerif.Driver.Util
 import TeaalVerif.IR.Tensor
 import TeaalVerif.Props.C05
+import TeaalVerif.Props.C07Heap
 open Lean
 namespace Driver
 
@@ -45,6 +46,89 @@ def rankids (j : Json) : Except String Json := do
     let final := vars.filterMap fun x => (st.get x).map fun ids => Json.arr #[Json.str x, jStrs ids]
     let inputsSame := inputs.all fun (x, ids) => st.get x == some ids
     return Json.mkObj [("ok", true), ("final", Json.arr final.toArray), ("inputs_unchanged", inputsSame)]
+
+/-! ### the heap checker (`RankHeap.chk`, sound for every execution: `C07.chk_sound`) on the real tree -/
+
+partial def patVars : HF.Payload → List String
+  | .var x => [x]
+  | .tuple ps => ps.flatMap patVars
+
+/-- the tensor-relevant reading of the emitted statements (the translator is part of the tie, not of the theorem) -/
+partial def progOf : HF.Stmt → RankHeap.Prog
+  | .block ss => ss.foldr (fun s acc => .seq (progOf s) acc) .skip
+  | .for_ p _ b => .loop ((patVars p).foldr (fun x acc => .seq (.op (.clobber x)) acc) (progOf b))
+  | .if_ _ t _ es el =>
+    let rest : RankHeap.Prog := match el with
+      | some x => progOf x
+      | none => .skip
+    .alt (progOf t) (es.foldr (fun s acc => .alt (progOf s) acc) rest)
+  | .assign (.var x) (.var y) => .op (.copy x y)
+  | .assign (.var x) (.func "Tensor" kw args) =>
+    match (RankIds.kwArg kw args "rank_ids").bind RankIds.strList? with
+    | some ids => .op (.fresh x ids)
+    | none => .op (.meth x "<Tensor() without literal rank_ids>" fun _ => .error s!"Tensor(...) for {x} without literal rank_ids")
+  | .assign (.var x) (.method (.var "Tensor") "fromFiber" kw args) =>
+    match (RankIds.kwArg kw args "rank_ids").bind RankIds.strList? with
+    | some ids => .op (.fresh x ids)
+    | none => .op (.meth x "<fromFiber without literal rank_ids>" fun _ => .error s!"Tensor.fromFiber for {x} without literal rank_ids")
+  | .assign (.var x) (.method (.var y) m kw args) =>
+    if RankIds.tensorMethods.contains m then .op (.meth x y fun ids => RankIds.methodIds ids m kw args) else .op (.clobber x)
+  | .assign (.var x) _ => .op (.clobber x)
+  | .func _ _ b => .alt (progOf b) .skip
+  | .expr (.method (.var y) "setRankIds" kw args) =>
+    match (RankIds.kwArg kw args "rank_ids").bind RankIds.strList? with
+    | some ro => .op (.setIds y ro)
+    | none => .op (.meth y "<setRankIds without literal rank_ids>" fun _ => .error s!"setRankIds on {y} without literal rank ids")
+  | _ => .skip
+
+partial def progSize : RankHeap.Prog → Nat × Nat × Nat       -- (operations, loops, alternatives)
+  | .op _ => (1, 0, 0)
+  | .skip => (0, 0, 0)
+  | .seq p q => let (a, b, c) := progSize p; let (d, e, f) := progSize q; (a + d, b + e, c + f)
+  | .loop b => let (a, l, c) := progSize b; (a, l + 1, c)
+  | .alt p q => let (a, b, c) := progSize p; let (d, e, f) := progSize q; (a + d, b + e, c + f + 1)
+
+/-- tensor operations that sit inside a loop or a branch (checked once there, sound for any number of iterations) -/
+partial def opsInside : RankHeap.Prog → Bool → Nat
+  | .op (.clobber _), _ => 0
+  | .op _, inside => if inside then 1 else 0
+  | .skip, _ => 0
+  | .seq p q, i => opsInside p i + opsInside q i
+  | .loop b, _ => opsInside b true
+  | .alt p q, _ => opsInside p true + opsInside q true
+
+/-- the checker's states at the end of every loop body and branch (what is bound there is forgotten afterwards, so names bound
+    inside a loop are judged where their scope ends; `chk_sound` applies to each body as a program of its own) -/
+partial def scopeEnds : RankHeap.Prog → RankHeap.H → List RankHeap.H
+  | .seq p q, h => match RankHeap.chk p h with
+    | .ok h1 => scopeEnds p h ++ scopeEnds q h1
+    | .error _ => []
+  | .loop b, h => (match RankHeap.chk b h with | .ok h1 => [h1] | .error _ => []) ++ scopeEnds b h
+  | .alt p q, h =>
+    (match RankHeap.chk p h with | .ok h1 => [h1] | .error _ => []) ++ (match RankHeap.chk q h with | .ok h1 => [h1] | .error _ => []) ++
+      scopeEnds p h ++ scopeEnds q h
+  | _, _ => []
+
+def rankheap (j : Json) : Except String Json := do
+  let s ← HF.stmtOfJson (← fld j "tree")
+  let inputsJ ← HF.arr (← fld j "inputs")
+  let inputs ← inputsJ.toList.mapM fun p => do
+    let a ← HF.arr p
+    pure ((← HF.strOf a[0]!), (← strList a[1]!))
+  let h0 := inputs.foldl (fun h (x, ids) => h.alloc x ids true) RankHeap.H.empty
+  let p := progOf s
+  let (nops, nloops, nalts) := progSize p
+  let stats := [("ops", (nops : Json)), ("loops", (nloops : Json)), ("alts", (nalts : Json)), ("tensor_ops_inside_loops", (opsInside p false : Json))]
+  match RankHeap.chk p h0 with
+  | .error e => return Json.mkObj ([("ok", Json.bool false), ("why", Json.str e)] ++ stats)
+  | .ok h =>
+    let pairsOf (g : RankHeap.H) : List (String × List String) := g.dom.eraseDups.filterMap fun x => (g.cls x).map fun a => (x, g.ids a)
+    let top := pairsOf h
+    let inner := ((scopeEnds p h0).flatMap pairsOf).eraseDups.filter fun pr => !top.contains pr
+    let final := top.map fun (x, ids) => Json.arr #[Json.str x, jStrs ids]
+    let scopedJ := inner.map fun (x, ids) => Json.arr #[Json.str x, jStrs ids]
+    let inputsSame := inputs.all fun (x, ids) => (h.cls x).map h.ids == some ids
+    return Json.mkObj ([("ok", Json.bool true), ("final", Json.arr final.toArray), ("scoped", Json.arr scopedJ.toArray), ("inputs_unchanged", Json.bool inputsSame)] ++ stats)
 
 def tmpIssued (j : Json) : Except String Json := do
   let c ← HF.intOf (← fld j "count_before")
